@@ -7,6 +7,7 @@ A_COMMON = [
 ]
 
 A_ITER = [
+    "A-iter (frame): the listing `sched_vehicles` (what Schedule::vehicles_iter_all yields, in order) depends only on the network's vehicle types and on vehicle_ids_grouped_and_sorted (axiom_sched_vehicles_frame in env/depot_ops_shim.vs, read off the body of vehicles_iter_all / vehicles_iter)",
     "A-iter: SeqIter shim (env/seqiter.vs): map, sum, any, all, position, tuple_windows, take, skip, copied, collect, for-loops carry the assumed semantics of std::iter / itertools; R5 routes `.iter()` chains to it",
     "A-fmt (R9): format!(LIT, ..) with literal text returns a non-empty String; Display impls have no precondition",
     "A-len: a well-formed tour has at most 2^17+2 nodes (pairwise distinct nodes, Idx = u16) — stated precondition of the operations, argued not machine-checked",
